@@ -300,10 +300,14 @@ def run_sim(case):
         # fewer slots than simulants: the collision loop could not terminate; report the size, do not run
         out["skipped"] = "block smaller than the planned population"
         return out
-    sim.initialize_simulants()
-    out["maps"].append(ic.dump_map(im)[0])
-    for _ in range(case["steps"]):
-        sim.step()
+    try:
+        sim.initialize_simulants()
+        out["maps"].append(ic.dump_map(im)[0])
+        for _ in range(case["steps"]):
+            sim.step()
+            out["maps"].append(ic.dump_map(im)[0])
+    except Exception as e:  # noqa: BLE001 - a crash of the simulation is an observation
+        out["crash"] = ic.outcome_of(e)
         out["maps"].append(ic.dump_map(im)[0])
     out["draws"] = {str(k): v for k, v in p.draws.items()}
     return out
@@ -314,6 +318,8 @@ def oracle_sim(case, obs):
     want = max(case["map_size"], 10 * case["pop"])
     if obs["size"] != want:
         fails.append({"sig": "block-size-rule", "msg": f"block size {obs['size']}, expected max(map_size, 10*population) = {want}"})
+    if obs.get("crash"):
+        fails.append({"sig": "simulation-crashed", "msg": f"the simulation (unique keys, block large enough) stopped with {obs['crash']}"})
     prev = {}
     for i, m in enumerate(obs["maps"]):
         cur = dict((s, p) for s, p in (m or []))
